@@ -74,7 +74,8 @@ PROPS["C05"] = dict(level="proof", bounded=[dict(name="c05_runtime", script="har
     lean=["eval_bound", "eval_bound_threshold"], assumptions=SOLVER_ASSUME)
 SAM = ["contracts.value_iteration", "contracts.semi_async"]
 SA_KERNELS = [U(SAM, f"{SA}.{m}") for m in ("_get_value_next_state", "_calculate_updated_state_action_value", "_calculate_updated_value", "_calculate_updated_value_state_batch")]
-PROPS["C06"] = dict(level="proof", bounded=[dict(name="c06_runtime", script="harness_solvers.py", args=["--prop", "c06"], wall_s=300)],
+PROPS["C06"] = dict(level="proof", bounded=[dict(name="c06_runtime", script="harness_solvers.py", args=["--prop", "c06"], wall_s=300),
+                                            dict(name="c06_multidevice", script="harness_c06_devices.py", wall_s=300)],       # "earlier batches ON THE SAME DEVICE": the sweep on 2-8 emulated devices
     units=[U(SAM, f"{SA}._calculate_updated_value_scan_state_batches", timeout_ms=30000), U(SAM, f"{SA}._shuffle_states"), U(SAM, f"{SA}._reorder_values"),
            U(SAM + ["contracts.vi_solve"], f"{SA}._update_values", timeout_ms=20000), U(SAM + ["contracts.vi_solve"], f"{SA}._iteration_step", timeout_ms=20000),
            U(SAM + ["contracts.vi_solve"], f"{SA}.solve", timeout_ms=20000), U(SAM + ["contracts.vi_solve"], f"{SA}._setup_config")] + SA_KERNELS,
